@@ -13,14 +13,14 @@ RULE = ("5 target states (absent, existing TDF, existing non-TDF, existing empty
 ASSUMPTIONS = ["targets live on tmpfs under /dev/shm"]
 REQUIRED = {t: ["oracle:C17.existing-target-refused", "oracle:C17.new-is-canonical-empty",
                 "oracle:C17.copy-identical-and-independent", "oracle:C17.open-absent", "oracle:C17.open-non-tdf",
-                "c17:independence-checked", "c17:new:tdf", "c17:copy:non-tdf", "c17:copy:empty", "c17:new:directory"]
+                "c17:independence-checked", "oracle:C17.directory-otherwise-untouched", "c17:big-source", "c17:new:tdf", "c17:copy:non-tdf", "c17:copy:empty", "c17:new:directory"]
             for t in ("quick", "thorough")}
 
 
 def plan(tier, seed):
     if tier == "quick":
-        return [{"kind": "create-copy", "shard": s, "n": 300, "n_open": 60} for s in range(4)]
-    return [{"kind": "create-copy", "shard": s, "n": 900, "n_open": 300} for s in range(12)]
+        return [{"kind": "create-copy", "shard": s, "n": 300, "n_open": 60, "big_p": 0.12} for s in range(4)]
+    return [{"kind": "create-copy", "shard": s, "n": 900, "n_open": 300, "big_p": 0.15} for s in range(12)]
 
 
 def run_shard(desc, rec):
